@@ -29,7 +29,20 @@ var (
 	cur    doc
 	occ    = map[string]int{}
 	failed []string
+	// digest of the nd.Assert / nd.Reach calls of this run (number, and order-insensitive sum of the FNV-1a
+	// hashes of their ids): the engine computes the same on its path, the cross-check compares the two
+	traceSum uint64
+	traceN   int
 )
+
+func trace(kind, id string) {
+	h := uint64(1469598103934665603)
+	for _, c := range []byte(kind + id) {
+		h = (h ^ uint64(c)) * 1099511628211
+	}
+	traceSum += h
+	traceN++
+}
 
 type assumeViolated struct{}
 
@@ -41,6 +54,7 @@ func load(path string) error {
 	cur = doc{}
 	occ = map[string]int{}
 	failed = nil
+	traceSum, traceN = 0, 0
 	return json.Unmarshal(b, &cur)
 }
 
@@ -123,11 +137,12 @@ func Assume(c bool) {
 
 // Assert records a failed assertion and carries on, so that the replay can tell which assertion failed.
 func Assert(c bool, id string) {
+	trace("A:", id)
 	if !c {
 		failed = append(failed, id)
 	}
 }
-func Reach(label string) {}
+func Reach(label string) { trace("R:", label) }
 
 func Track(root interface{}) {}
 func Begin(label string)     {}
@@ -189,6 +204,8 @@ func Par(f, g func()) {
 }
 
 type outcome struct {
+	TraceSum uint64   `json:"trace_sum"`
+	TraceN   int      `json:"trace_n"`
 	File     string   `json:"file"`
 	Failed   []string `json:"failed"`
 	Panic    string   `json:"panic"`
@@ -251,6 +268,7 @@ func ReplayAll(harnesses map[string]func()) {
 					o.Hang = true
 				}
 				o.Failed = append(o.Failed, failed...)
+				o.TraceSum, o.TraceN = traceSum, traceN
 				if o.Hang {
 					break
 				}
